@@ -244,37 +244,51 @@ Section Life.
       apply last_snoc_eq in H as [_ ->]. exists Q1. reflexivity.
     Qed.
 
-    (* the burst answered in this state for the cursor of an earlier New / Undo event, applied to the consumer
-       right after that event (final up to the cursor LIB), gives the consumer of this state *)
-    Lemma resume_at e ck P Q F0 evs :
+    (* what the single-state C05 theorems (c05_fast_path_consumer_partial, c05_forked_path, c05_resume_partial,
+       c05_serves) assume, for the cursor of the event e in this state *)
+    Definition MeetsHyps (e : event) (ck : cons) (P Q : list block) (hd : block) (sg : list seg) : Prop :=
+      let cur := ev_cursor e in
+      wf_state s /\ good_seg sg /\ seg_stored (db s) sg /\
+      (* the cursor LIB is on the retained chain with its number *)
+      (exists x, In x sg /\ sid x = ri (cu_lib cur) /\ snum x = rn (cu_lib cur)) /\
+      (* the cursor block, if retained, is stored under the number the cursor carries *)
+      (forall e0, find (ri (cu_blk cur)) (store (db s)) = Some e0 -> bnum (eb e0) = rn (cu_blk cur)) /\
+      (* the consumer at the cursor; the blocks it holds up to the cursor LIB are P *)
+      cs_stack ck = rev (P ++ Q) /\
+      length (filter (fun b => bnum b <=? rn (elib e)) (cs_stack ck)) = length P /\
+      (* the never-disconnected consumer of this state *)
+      rev (P ++ map seg_blk (above_seg cur sg)) = S /\
+      (length P + length (filter (final_now s) (above_seg cur sg)))%nat = length Fin /\
+      (* cursor block on the retained chain: the fast path *)
+      (block_in (ri (cu_blk cur)) sg = true ->
+         map seg_blk (held_seg cur sg) = Q /\ (held_seg cur sg = [] -> stack_links P (above_seg cur sg))) /\
+      (* cursor block off the chain: the branch down to the junction *)
+      (block_in (ri (cu_blk cur)) sg = false ->
+         forall path j je, branch_to (db s) sg (ri (cu_blk cur)) path j -> find j (store (db s)) = Some je ->
+           let jc := junction_cursor hd cur (mkR j (bnum (eb je))) in
+           Q = map seg_blk (held_seg jc sg) ++ map seg_blk (rev (undos_of cur path)) /\
+           (held_seg jc sg = [] -> stack_links P (above_seg jc sg)) /\
+           rn (cu_lib cur) <= bnum (eb je)).
+
+    Lemma cursor_meets e ck P Q F0 hd sg :
       CurAt U a e ck P Q (libblk a P) -> Fin = P ++ F0 ->
       linked (bid (libblk a P)) F0 -> Forall (fun x => In x U /\ bnum (libblk a P) < bnum x) F0 ->
       nu e ->
-      blocks_from_cursor s (ev_cursor e) = BOk evs ->
-      cons_fold (mkCons (cs_stack ck) (length (filter (fun b => bnum b <=? rn (elib e)) (cs_stack ck))) true) evs
-        = Some (mkCons S (length Fin) true).
+      last_sent s = Some hd -> complete_segment (db s) (bref hd) = Some (sg, true) ->
+      block_in (ri (elib e)) sg = true ->
+      MeetsHyps e ck P Q hd sg.
     Proof.
-      intros [Hstack HLU Helib HPf HQf Hlq Hbk Hcb Hnew Hundo] HF Hl0 HF0 Hnu HB.
+      intros [Hstack HLU Helib HPf HQf Hlq Hbk Hcb Hnew Hundo] HF Hl0 HF0 Hnu Hls E Hlibin0.
+      unfold MeetsHyps. cbv zeta.
       set (L := libblk a P) in *. set (cur := ev_cursor e) in *.
       assert (Hcl : cu_lib cur = bref L) by exact Helib.
       assert (Hcbk : cu_blk cur = bref (eblk e)) by exact Hcb.
       assert (Hcs : cu_step cur = estep e) by reflexivity.
-      destruct post_head as (hd & p0 & Hls & HhU & _ & _ & _ & _ & _ & HFin).
+      destruct post_head as (hd' & p0 & Hls' & HhU & _ & _ & _ & _ & _ & HFin).
+      rewrite Hls in Hls'. injection Hls' as <-.
       pose proof (inv_wf_state a s Fin S Ha HI) as W. pose proof W as [[Wst _] _].
       pose proof (i_db U _ _ _ _ _ HI) as Hd. pose proof (di_inU U _ _ Hd) as HinU.
-      (* the burst *)
-      unfold blocks_from_cursor in HB. rewrite (di_has_lib U (R a) _ Hd), Hls in HB. cbn [negb] in HB.
-      destruct (complete_segment (db s) (bref hd)) as [[sg reach]|] eqn:E; cbv beta iota in HB; [|discriminate HB].
-      assert (Hr : reach = true).
-      { destruct reach; [reflexivity|]. destruct sg; cbv beta iota in HB; discriminate HB. }
-      subst reach.
-      assert (HB' : from_cursor_loop (fuel_of (db s)) s hd sg cur = BOk evs).
-      { destruct sg as [|s0 sg']; cbv beta iota in HB; [discriminate HB|].
-        destruct (rn (cu_lib cur) <? snum s0); [discriminate HB | exact HB]. }
-      clear HB.
-      assert (Hlibin : block_in (ri (cu_lib cur)) sg = true).
-      { destruct (block_in (ri (cu_lib cur)) sg) eqn:Hx; [reflexivity|]. exfalso.
-        exact (loop_foreign_lib s hd sg cur _ Hx evs HB'). }
+      assert (Hlibin : block_in (ri (cu_lib cur)) sg = true) by exact Hlibin0.
       assert (HlibinL : block_in (bid L) sg = true) by (rewrite Hcl in Hlibin; exact Hlibin).
       destruct (above_lib_part hd sg true P F0 Hls E HF HLU Hl0 HF0 HlibinL)
         as (lo & xL & hi & p & Hsplit & HbL & HnL & HsL & HS & HH & HpU & Hlo & Hhi & Hstd & Hlhi & Hsorted).
@@ -314,7 +328,6 @@ Section Life.
         fold (upto (bnum L) P) (upto (bnum L) Q). rewrite upto_all, upto_none; [cbn [length]; lia | |].
         - eapply Forall_impl; [|exact HQf]. cbn beta. tauto.
         - eapply Forall_impl; [|exact HPf]. cbn beta. tauto. }
-      rewrite Hck, Hstack.
       assert (Htarget : rev (P ++ map seg_blk hi) = S).
       { fold H. rewrite HH, HS, HF, <- !app_assoc. reflexivity. }
       assert (Hlen : (length P + length F0)%nat = length Fin) by (rewrite HF, app_length; reflexivity).
@@ -346,13 +359,18 @@ Section Life.
         - rewrite HHs in HHU. change (B :: map seg_blk h2) with ([B] ++ map seg_blk h2) in HHU. rewrite app_assoc in HHU.
           apply Forall_app in HHU. tauto. }
       assert (HQU : Forall (fun y => In y U) Q) by (eapply Forall_impl; [|exact HQf]; cbn beta; tauto).
-      destruct (block_in (ri (cu_blk cur)) sg) eqn:Hblkin.
+      split; [exact W|]. split; [exact Hgood|]. split; [exact Hst|].
+      split.
+      { exists xL. split; [rewrite Hsplit; apply in_or_app; right; left; reflexivity|]. rewrite Hcl. cbn [bref ri rn]. auto. }
+      split.
+      { intros e0 He0. rewrite Hcbk in *. cbn [bref ri rn] in *.
+        rewrite (stored_is_self U U_uniq _ _ _ HinU Hbk He0). reflexivity. }
+      split; [exact Hstack|]. split; [exact Hck|].
+      split; [rewrite (Habove cur eq_refl); exact Htarget|].
+      split; [rewrite (Habove cur eq_refl), Hnfin; exact Hlen|].
+      split.
       - (* the fast path *)
-        assert (Hloop : from_cursor_loop (fuel_of (db s)) s hd sg cur = BOk (from_cursor_fast s hd sg cur)).
-        { unfold fuel_of. cbn [from_cursor_loop]. rewrite Hblkin, Hlibin. reflexivity. }
-        rewrite Hloop in HB'. injection HB' as <-.
-        pose proof (c05_fast_path_consumer_proof s hd sg cur P true Hgood) as Hfast. cbv zeta in Hfast.
-        rewrite (Habove cur eq_refl) in Hfast.
+        intros Hblkin.
         assert (Hheld : map seg_blk (held_seg cur sg) = Q).
         { rewrite held_seg_eq, (Habove cur eq_refl).
           rewrite (filter_ext_in' _ (fun x => (fun n => if is_undo cur then n <? rn (cu_blk cur) else n <=? rn (cu_blk cur)) (snum x))).
@@ -382,15 +400,12 @@ Section Life.
             + rewrite HHs in Hlhi. eapply linked_prefix. exact Hlhi.
             + rewrite HHs in HHU. apply Forall_app in HHU. tauto.
             + rewrite <- Hpar. rewrite HHs in Hlhi. apply (linked_mid _ _ _ _ Hlhi). }
-        rewrite Hheld in Hfast. rewrite Hfast.
-        + rewrite Htarget, Hnfin, Hlen. reflexivity.
-        + intros _. exact Hlinks0.
+        split; [exact Hheld|]. intros _. rewrite (Habove cur eq_refl). exact Hlinks0.
       - (* the forked path *)
-        destruct (c05_forked_path_proof s hd sg cur Wst Hst) as (Htotal & _ & Hwalk & _ & Hburst).
-        destruct (Hburst Hlibin Hblkin) as [_ Herr].
-        destruct Htotal as [(path & j & Hbr)|Hbroken]; [|rewrite (Herr Hbroken) in HB'; discriminate].
-        destruct (Hwalk path j Hbr) as (_ & (x & rest & Hpath & Hsx & Hundos) & Hjin).
-        destruct (seg_stored_junction _ _ _ Hst Hjin) as [je Hje].
+        intros Hblkin path j je Hbr0 Hje.
+        destruct (c05_forked_path_proof s hd sg cur Wst Hst) as (_ & _ & Hwalk & _ & _).
+        destruct (Hwalk path j Hbr0) as (_ & (x & rest & Hpath & Hsx & Hundos) & Hjin).
+        pose proof Hbr0 as Hbr.
         rewrite Hcbk in Hblkin, Hbr, Hsx. cbn [bref ri] in Hblkin, Hbr, Hsx.
         (* the universe chain from L to the cursor block *)
         assert (HQ' : exists Q', linked (bid L) Q' /\ Forall (fun y => In y U) Q' /\ Q' <> [] /\ tip (bid L) Q' = bid (eblk e) /\
@@ -437,18 +452,72 @@ Section Life.
             rewrite HeJ, HHs. rewrite HHs in Hsorted. rewrite (upto_split _ _ _ Hsorted). f_equal. symmetry.
             apply (Hbegin Q1' J h1 h2 HHs); [exact HlQ1|].
             rewrite HQ12 in HUQ'. apply Forall_app in HUQ'. tauto. }
+        assert (HJge : bnum L <= bnum (eb je)).
+        { destruct Q1 as [|J Q1' _] using rev_ind.
+          - unfold tip in Hj. cbn in Hj. pose proof Hje as Hje2. rewrite Hj, <- HsL in Hje2.
+            assert (HxLin : In xL sg) by (rewrite Hsplit; apply in_or_app; right; left; reflexivity).
+            rewrite (Hst xL HxLin) in Hje2. injection Hje2 as <-. fold (seg_blk xL). rewrite HbL. apply N.le_refl.
+          - rewrite tip_snoc in Hj. apply Forall_app in HQ1U as [_ HJ]. pose proof (Forall_inv HJ) as HJU. cbn beta in HJU.
+            apply Forall_app in HQ1ab as [_ HJa]. pose proof (Forall_inv HJa) as HJn. cbn beta in HJn.
+            assert (HeJ : eb je = J).
+            { apply U_uniq; [apply HinU; apply find_some in Hje; tauto | exact HJU|].
+              apply find_some in Hje as [_ Hk]. rewrite <- Hj. exact Hk. }
+            rewrite HeJ. lia. }
         assert (HQdec : Q = Q1 ++ map seg_blk (rev (undos_of cur path))).
         { rewrite Hundos, Hcs. destruct Hkind as [[HeN ->]|[HeU HQ'e]].
           - rewrite HeN. cbn [step_eqb]. rewrite Hmap. exact HQ12.
           - rewrite HeU. cbn [step_eqb]. rewrite Hpath in Hmap. cbn [rev] in Hmap. rewrite map_app in Hmap. cbn [map] in Hmap.
             rewrite HQ'e, <- Hmap, app_assoc in HQ12. apply last_snoc_eq in HQ12. tauto. }
-        assert (Hbr' : branch_to (db s) sg (ri (cu_blk cur)) path j) by (rewrite Hcbk; cbn [bref ri]; rewrite <- HtQ'; exact Hbr).
-        assert (Hblkin' : block_in (ri (cu_blk cur)) sg = false) by (rewrite Hcbk; exact Hblkin).
-        destruct (c05_resume_partial_proof s hd sg cur path j je P true Wst Hst Hgood Hlibin Hblkin' Hbr' Hje) as (evs' & Hloop & Hfold).
-        + fold jc. intros _. rewrite (Habove jc eq_refl). exact Hlinks0.
-        + rewrite Hloop in HB'. injection HB' as <-. cbv zeta in Hfold. fold jc in Hfold.
-          rewrite Hheld, <- HQdec, (Habove cur eq_refl) in Hfold. rewrite Hfold.
-          rewrite Htarget, Hnfin, Hlen. reflexivity.
+        split; [rewrite Hheld; exact HQdec|].
+        split; [intros _; rewrite (Habove jc eq_refl); exact Hlinks0|].
+        rewrite Hcl. cbn [bref rn]. exact HJge.
+    Qed.
+
+    (* the burst answered in this state for the cursor of an earlier New / Undo event, applied to the consumer
+       right after that event (final up to the cursor LIB), gives the consumer of this state *)
+    Lemma resume_at e ck P Q F0 evs :
+      CurAt U a e ck P Q (libblk a P) -> Fin = P ++ F0 ->
+      linked (bid (libblk a P)) F0 -> Forall (fun x => In x U /\ bnum (libblk a P) < bnum x) F0 ->
+      nu e ->
+      blocks_from_cursor s (ev_cursor e) = BOk evs ->
+      cons_fold (mkCons (cs_stack ck) (length (filter (fun b => bnum b <=? rn (elib e)) (cs_stack ck))) true) evs
+        = Some (mkCons S (length Fin) true).
+    Proof.
+      intros HC HF Hl0 HF0 Hnu HB. set (cur := ev_cursor e) in *.
+      destruct post_head as (hd & p0 & Hls & _).
+      pose proof (i_db U _ _ _ _ _ HI) as Hd.
+      unfold blocks_from_cursor in HB. rewrite (di_has_lib U (R a) _ Hd), Hls in HB. cbn [negb] in HB.
+      destruct (complete_segment (db s) (bref hd)) as [[sg reach]|] eqn:E; cbv beta iota in HB; [|discriminate HB].
+      assert (Hr : reach = true).
+      { destruct reach; [reflexivity|]. destruct sg; cbv beta iota in HB; discriminate HB. }
+      subst reach.
+      assert (HB' : from_cursor_loop (fuel_of (db s)) s hd sg cur = BOk evs).
+      { destruct sg as [|s0 sg']; cbv beta iota in HB; [discriminate HB|].
+        destruct (rn (cu_lib cur) <? snum s0); [discriminate HB | exact HB]. }
+      clear HB.
+      assert (Hlibin : block_in (ri (cu_lib cur)) sg = true).
+      { destruct (block_in (ri (cu_lib cur)) sg) eqn:Hx; [reflexivity|]. exfalso.
+        exact (loop_foreign_lib s hd sg cur _ Hx evs HB'). }
+      destruct (cursor_meets e ck P Q F0 hd sg HC HF Hl0 HF0 Hnu Hls E Hlibin)
+        as (W & Hgood & Hst & _ & _ & Hstack & Hck & Htarget & Hlen & Hfastc & Hforkc).
+      fold cur in Htarget, Hlen, Hfastc, Hforkc. pose proof W as [[Wst _] _].
+      rewrite Hck, Hstack.
+      destruct (block_in (ri (cu_blk cur)) sg) eqn:Hblkin.
+      - destruct (Hfastc eq_refl) as [Hheld Hlinks].
+        assert (Hloop : from_cursor_loop (fuel_of (db s)) s hd sg cur = BOk (from_cursor_fast s hd sg cur)).
+        { unfold fuel_of. cbn [from_cursor_loop]. rewrite Hblkin, Hlibin. reflexivity. }
+        rewrite Hloop in HB'. injection HB' as <-.
+        pose proof (c05_fast_path_consumer_proof s hd sg cur P true Hgood Hlinks) as Hfast. cbv zeta in Hfast.
+        rewrite Hheld in Hfast. rewrite Hfast, Htarget, Hlen. reflexivity.
+      - destruct (c05_forked_path_proof s hd sg cur Wst Hst) as (Htotal & _ & Hwalk & _ & Hburst).
+        destruct (Hburst Hlibin Hblkin) as [_ Herr].
+        destruct Htotal as [(path & j & Hbr)|Hbroken]; [|rewrite (Herr Hbroken) in HB'; discriminate].
+        destruct (Hwalk path j Hbr) as (_ & _ & Hjin).
+        destruct (seg_stored_junction _ _ _ Hst Hjin) as [je Hje].
+        destruct (Hforkc eq_refl path j je Hbr Hje) as (HQdec & Hlinks & _).
+        destruct (c05_resume_partial_proof s hd sg cur path j je P true Wst Hst Hgood Hlibin Hblkin Hbr Hje Hlinks) as (evs' & Hloop & Hfold).
+        rewrite Hloop in HB'. injection HB' as <-. cbv zeta in Hfold.
+        rewrite <- HQdec in Hfold. rewrite Hfold, Htarget, Hlen. reflexivity.
     Qed.
   End AtState.
 End Life.
